@@ -97,7 +97,7 @@ fn injection(kind: u8, variant: u8) -> Injection {
         2 => (vec![], ["@zzq{%kg}", "@zzq{ %kg}", "@zzq{ % kg }"][v % 3].into(), e, "empty value", Stage::Parse),
         3 if v % 5 >= 3 => (vec![], ["#zzq{2 large}", "#zzq pot{1/2 kg}"][v % 2].into(), Extensions::ADVANCED_UNITS, "unit on cookware", Stage::Parse),
         3 => (vec![], ["#zzq{1%kg}", "#zzq pot{2 % big ones}", "#zzq{a few%kg}"][v % 3].into(), e, "unit on cookware", Stage::Parse),
-        4 => (vec![], ["~zzq{5}", "~{5}", "~zzq{1/2}", "~{ 10 }"][v % 4].into(), e, "timer without unit", Stage::Parse),
+        4 => (vec![], ["~zzq{5}", "~{5}", "~zzq{1/2}", "~{ 10 }", "~{25%}", "~zzq{25 % }"][v % 6].into(), e, "timer without unit", Stage::Parse),
         5 => (vec![], ["~zzq{}", "~zzq"][v % 2].into(), Extensions::TIMER_REQUIRES_TIME, "timer without duration", Stage::Parse),
         6 => (vec![], "~{}".into(), e, "timer with neither name nor duration", Stage::Parse),
         7 => (vec![], ["@??zzq{}", "#?-?zzq{}", "@-?-zzq{1%kg}", "@++zzq{}"][v % 4].into(), Extensions::COMPONENT_MODIFIERS, "duplicate modifier", Stage::Parse),
